@@ -4,7 +4,7 @@
    known finding K9). *)
 From RL Require Import UData Uax29 LineBuffer LineBufferOps LineBufferProofs LineBufferTotal LineBufferAll LineBufferGrow
      Undo KillRing History Render Keys Editor EditorRun EditorProofs UndoProofs UndoEditor KillRingProofs RecallProofs
-     NoPanic ReadNoPanic.
+     HistoryProofs NoPanic ReadNoPanic.
 
 (* the pending numeric argument is only touched by the keymap *)
 Definition kna {A} (m : E A) : Prop := forall s a s', m s = EOk a s' -> i_num_args s' = i_num_args s.
@@ -13,7 +13,7 @@ Proof.
   intros Hm Hf s b s2 H. apply ebind_inv in H. destruct H as [a [s1 [H1 H2]]].
   rewrite (Hf _ _ _ _ H2). eapply Hm; eauto.
 Qed.
-Ltac kna_leaf := intros ? ? ? ?H; first [discriminate | (inversion H; subst; reflexivity)].
+Ltac kna_leaf := let Hx := fresh "Hx" in intros ? ? ? Hx; first [discriminate | (inversion Hx; subst; reflexivity)].
 Ltac kna_auto :=
   repeat (first [ match goal with |- kna (ebind _ _) => apply kna_bind; [|intros] end
                 | (kna_leaf; fail) ] ||
@@ -44,8 +44,11 @@ Section MainLoop.
 
   Hypothesis no_helper : c_has_helper cfg = false.
 
+  Section Loop.
+  Variable H : list str.          (* the stored history: fixed during a read (C07) *)
+
   (* the loop invariant *)
-  Definition P (s : est) : Prop := R cfg s /\ e_hist s = [].
+  Definition P (s : est) : Prop := R cfg s /\ e_hist s = H.
 
   Definition rp {A} (m : E A) : Prop :=
     forall s, P s -> match m s with EPanic => False | EOk _ s' => P s' | _ => True end.
@@ -67,7 +70,7 @@ Section MainLoop.
   Lemma rp_ret {A} (a : A) : rp (eret a).
   Proof. intros s HP. exact HP. Qed.
   Lemma rp_get_bind {A} (f : est -> E A) : (forall s0, P s0 -> rp (f s0)) -> rp (ebind eget f).
-  Proof. intros H s HP. unfold ebind, eget. apply H; exact HP. Qed.
+  Proof. intros Hf s HP. unfold ebind, eget. apply Hf; exact HP. Qed.
 
   Lemma q5_external_print m : quiet5 (external_print U cfg m).
   Proof. unfold external_print. q5_auto; apply q5_refresh_line. Qed.
@@ -81,7 +84,7 @@ Section MainLoop.
   Lemma rp_reset c0 : rp (if should_reset_kill_ring c0 then (edo s <- eget; set_kr (kr_reset (e_kr s))) else eret tt).
   Proof.
     destruct (should_reset_kill_ring c0); [|apply rp_ret].
-    apply rp_of_np; [apply np_forget_yank| |]; intros s a s' H; inversion H; reflexivity.
+    apply rp_of_np; [apply np_forget_yank| |]; intros s a s' Hx; inversion Hx; reflexivity.
   Qed.
 
   Lemma rp_execute c : rp (execute U cfg c).
@@ -93,6 +96,9 @@ Section MainLoop.
     apply rp_bind; [|intros _; exact Hk].
     apply rp_of_np; [apply np_edit_insert|apply edit_insert_kna|apply edit_insert_kh].
   Qed.
+
+  (* what the loop needs from the incremental search *)
+  Hypothesis search_rp : forall f, rp (incremental_search U cfg f).
 
   (* THE LOOP: from any state with the invariant, for every amount of fuel, no panic *)
   Theorem main_loop_rp fuel : rp (main_loop U cfg fuel).
@@ -112,22 +118,19 @@ Section MainLoop.
                              | CReverseSearchHistory => incremental_search U cfg f
                              | _ => eret (Some c1)
                              end).
-    { destruct c1; try apply rp_ret.
-      (* the history is empty: the search returns at once *)
-      intros s HP. unfold incremental_search, ebind, eget. destruct HP as [HR He]. unfold hlen_e. rewrite He. cbn.
-      split; [exact HR|exact He]. }
+    { destruct c1; try apply rp_ret. apply search_rp. }
     intros oc2. destruct oc2 as [c2|]; [|exact IH].
     destruct c2; try (apply rp_bind; [apply rp_execute|]; intros st; destruct st; [exact IH|apply rp_ret]).
     - apply rp_quoted_insert. exact IH.
     - exact IH.
   Qed.
 
-  (* A WHOLE READ *)
-  Theorem read_never_panics prompt initial kr inp :
-    kr_inv kr -> fst (read_line U cfg prompt initial [] kr inp) <> OPanic.
+  (* A WHOLE READ over the history H *)
+  Theorem read_rp prompt initial kr inp :
+    kr_inv kr -> fst (read_line U cfg prompt initial H kr inp) <> OPanic.
   Proof.
     intros Hk. unfold read_line.
-    set (s0 := initial_state U cfg prompt [] (kr_reset kr) inp).
+    set (s0 := initial_state U cfg prompt H (kr_reset kr) inp).
     assert (HP0 : P s0).
     { split; [split; [apply initial_J; exact Hk|intros _; cbn; lia]|reflexivity]. }
     match goal with |- fst (match ?prog s0 with _ => _ end) <> _ => assert (Hrp : rp prog) end.
@@ -145,4 +148,260 @@ Section MainLoop.
     match goal with |- fst (match ?x with _ => _ end) <> _ => destruct x as [u s1|e s1| |] end;
       try (destruct e); cbn; try discriminate. exfalso. exact Hrp.
   Qed.
+  End Loop.
+
+  (* with an empty history the search returns at once: both modes *)
+  Theorem read_never_panics prompt initial kr inp :
+    kr_inv kr -> fst (read_line U cfg prompt initial [] kr inp) <> OPanic.
+  Proof.
+    apply read_rp. intros f s HP. unfold incremental_search, ebind, eget. destruct HP as [HR He]. unfold hlen_e. rewrite He. cbn.
+    split; [exact HR|exact He].
+  Qed.
+
+  (* ---------- Emacs mode: any history ---------- *)
+  Section EmacsSearch.
+    Hypothesis Hem : is_emacs cfg = true.
+    Variable H : list str.
+
+    Lemma quiet_of_q5 {A} (m : E A) : quiet5 m -> quiet m.
+    Proof. intros Hq s. specialize (Hq s). destruct (m s); auto. apply Hq. Qed.
+
+    Ltac q_known :=
+      first [ apply quiet_of_q5, q5_next_key | apply quiet_of_q5, q5_next_char | apply quiet_of_q5, q5_read_pasted
+            | apply q_refresh_line | apply quiet_of_q5, q5_refresh_prompt_and_line | apply q_beep | apply q_update_hint ].
+    Ltac q_em := q_auto; try q_known.
+
+    Lemma q_custom_binding k n p : quiet (custom_binding cfg k n p). Proof. unfold custom_binding. q_em. Qed.
+    Lemma q_custom_seq_binding fuel : forall ks, quiet (custom_seq_binding U cfg fuel ks).
+    Proof. induction fuel as [|f IH]; intros ks; cbn [custom_seq_binding]; q_em; apply IH. Qed.
+    Lemma q_term_binding k : quiet (term_binding cfg k). Proof. unfold term_binding. q_em. Qed.
+    Lemma q_cmd_redo c new : is_repeatable c = true -> quiet (cmd_redo c new).
+    Proof. intros Hr. destruct c; try discriminate; cbn [cmd_redo]; unfold last_insert; q_em. Qed.
+    Lemma q_redo_if c new : quiet (if is_repeatable c then cmd_redo c new else eret c).
+    Proof. destruct (is_repeatable c) eqn:E; [apply q_cmd_redo; exact E|q_em]. Qed.
+    Lemma q_common fuel k n p : quiet (common U cfg fuel k n p).
+    Proof. unfold common. q_em; try apply q_custom_seq_binding. Qed.
+    Lemma q_emacs_digit_loop fuel : forall mo, quiet (emacs_digit_loop U cfg fuel mo).
+    Proof.
+      induction fuel as [|f IH]; intros mo; cbn [emacs_digit_loop]; [q_em|].
+      apply quiet_bind; [apply q_get|]. intros s0. apply quiet_bind; [apply quiet_of_q5, q5_refresh_prompt_and_line|]. intros _.
+      apply quiet_bind; [apply quiet_of_q5, q5_next_key|]. intros k.
+      destruct k as [[] m]; try (q_em; fail).
+      match goal with |- quiet (if ?c then _ else _) => destruct c end.
+      - apply quiet_bind; [apply q_get|]. intros s1. cbv zeta. destruct mo.
+        + apply quiet_bind; [apply q_set_num_args|]. intros _. apply IH.
+        + match goal with |- quiet (if ?c then _ else _) => destruct c end; [|apply IH].
+          apply quiet_bind; [apply q_set_num_args|]. intros _. apply IH.
+      - match goal with |- quiet (if ?c then _ else _) => destruct c end; [apply IH|q_em].
+    Qed.
+    Lemma q_emacs fuel k0 : quiet (emacs U cfg fuel k0).
+    Proof.
+      unfold emacs. apply quiet_bind.
+      { destruct k0 as [[] m]; try (q_em; fail).
+        match goal with |- quiet (if ?c then _ else _) => destruct c end; [|q_em].
+        unfold emacs_digit_argument. apply quiet_bind; [destruct (c =? 45)%N; apply q_set_num_args|]. intros _.
+        apply q_emacs_digit_loop. }
+      intros k. apply quiet_bind; [unfold emacs_num_args, take_num_args; q_em|]. intros [n positive].
+      apply quiet_bind; [apply q_custom_binding|]. intros cb. destruct cb as [c|]; [apply q_redo_if|].
+      apply quiet_bind; [apply q_term_binding|]. intros tb. destruct tb as [c|]; [q_em|].
+      cbv zeta. unfold has_hint_at_end.
+      repeat (first [ apply q_common | apply q_custom_seq_binding | q_known
+                    | match goal with |- quiet (ebind _ _) => apply quiet_bind; [|intros] end
+                    | apply q_ret | apply q_get ] ||
+              match goal with
+              | |- quiet (if ?c then _ else _) => destruct c
+              | |- quiet (match ?x with _ => _ end) => destruct x
+              | |- quiet (let _ := _ in _) => cbv zeta
+              end).
+    Qed.
+
+    (* in Emacs mode reading a command leaves the undo stack alone, except for the group opened for Replace *)
+    Lemma nc_changes fuel sea s c s' :
+      next_cmd U cfg fuel sea s = EOk c s' ->
+      match c with CReplace _ _ => True | _ => e_changes s' = e_changes s end.
+    Proof.
+      unfold next_cmd. rewrite Hem. intros Hx.
+      apply ebind_inv in Hx. destruct Hx as [k [s1 [H1 Hx]]].
+      apply ebind_inv in Hx. destruct Hx as [s1' [s1'' [H2 Hx]]]. inversion H2; subst s1' s1''.
+      apply ebind_inv in Hx. destruct Hx as [c' [s2 [H3 Hx]]].
+      apply ebind_inv in Hx. destruct Hx as [u [s3 [H4 Hx]]]. inversion Hx; subst c' s3. clear Hx.
+      pose proof (quiet_of_q5 _ (q5_next_key U cfg (sea && true)) s) as Q1. rewrite H1 in Q1.
+      pose proof (q_emacs fuel k s1) as Q2. rewrite H3 in Q2.
+      destruct Q1 as [_ [C1 _]]. destruct Q2 as [_ [C2 _]].
+      destruct c; try (inversion H4; subst; congruence). exact Logic.I.
+    Qed.
+
+    (* what lb_changes does to the state, spelled out *)
+    Lemma lb_changes_spec {A} (m : M A) s a b' ev :
+      m (e_line s) = Ok (a, b', ev) ->
+      exists s', lb_changes U m s = EOk a s' /\ e_line s' = b'
+                 /\ e_changes s' = cs_notify_all U (useg U) (e_changes s) ev
+                 /\ e_kr s' = e_kr s /\ e_saved s' = e_saved s /\ e_hist s' = e_hist s /\ i_num_args s' = i_num_args s.
+    Proof.
+      intros Hm. unfold lb_changes. unfold ebind at 1. cbn [eget]. rewrite Hm. cbn. eexists. split; [reflexivity|].
+      repeat split.
+    Qed.
+
+    (* the search loop: entered with the undo stack c0 (valid for the text t0 being typed, cursor p0), which
+       changes_begin marks; inside the loop only notifications are added on top of the mark *)
+    Section SearchLoop.
+    Variable c0 : changeset.
+    Variable t0 : str.
+    Variable p0 : nat.
+    Hypothesis Hv0 : valid (cs_undos c0) t0.
+    Hypothesis Hbd0 : bd t0 p0.
+
+    Definition SInv (s : est) : Prop :=
+      P H s /\ exists es, e_changes s = cs_notify_all U (useg U) (fst (cs_begin c0)) es.
+    Definition sp {A} (m : E A) : Prop :=
+      forall s, SInv s -> match m s with EPanic => False | EOk _ s' => P H s' | _ => True end.
+
+    Lemma sp_of_rp {A} (m : E A) : rp H m -> sp m.
+    Proof. intros Hr s [HP _]. apply Hr. exact HP. Qed.
+
+    (* showing a hit: the line is replaced, the notifications go on top *)
+    Lemma show_hit entry p s :
+      SInv s -> bd entry p ->
+      exists s1, lb_changes U (update entry p) s = EOk tt s1 /\ SInv s1.
+    Proof.
+      intros [[[HJ HN] Hh] [es Hes]] Hbd. pose proof HJ as [Hw [Hi [Hk [Hs Hg]]]].
+      destruct (update_total entry p Hbd (e_line s) Hw) as [a [b' [ev [Hu Hw']]]]. destruct a.
+      destruct (lb_changes_spec (update entry p) s tt b' ev Hu) as [s1 [H1 [L [C [K [S [Hh1 N1]]]]]]].
+      exists s1. split; [exact H1|].
+      pose proof (np_lb_changes_at U (update entry p) s HJ (ex_intro _ tt (ex_intro _ b' (ex_intro _ ev (conj Hu Hw')))) (good_update _ _) (kg_update _ _)) as Hn.
+      rewrite H1 in Hn. cbn in Hn.
+      split; [split; [split; [exact Hn|unfold Nv; rewrite N1; exact HN]|rewrite Hh1; exact Hh]|].
+      exists (es ++ ev). rewrite C, Hes. unfold cs_notify_all. rewrite fold_left_app. reflexivity.
+    Qed.
+
+    (* aborting: the typed line comes back and the stack is cut at the mark: exactly c0 again *)
+    Lemma abort_ok s :
+      SInv s ->
+      match (lb_changes U (update t0 p0) ;;; refresh_line U cfg ;;;
+             (edo s1 <- eget; set_changes (cs_truncate (e_changes s1) (snd (cs_begin c0))) ;;; eret (@None cmd))) s with
+      | EPanic => False | EOk _ s' => P H s' | _ => True end.
+    Proof.
+      intros HS. pose proof HS as [[[HJ HN] Hh] [es Hes]]. pose proof HJ as [Hw [Hi [Hk [Hs Hg]]]].
+      destruct (RecallProofs.update_spec (e_line s) t0 p0 Hg (bd_le _ _ Hbd0)) as [ev Hu].
+      destruct (lb_changes_spec (update t0 p0) s tt _ ev Hu) as [s1 [H1 [L [C [K [S [Hh1 N1]]]]]]].
+      unfold ebind at 1. rewrite H1. unfold ebind at 1.
+      pose proof (q5_refresh_line U cfg s1) as Hq. destruct (refresh_line U cfg s1) as [u s2| | |] eqn:E2; auto.
+      destruct Hq as [[L2 [C2 [K2 S2]]] N2].
+      pose proof (kh_refresh_line U cfg _ _ _ E2) as Hh2.
+      assert (Htr : cs_truncate (e_changes s2) (snd (cs_begin c0)) = c0).
+      { rewrite C2, C, Hes. unfold cs_notify_all. rewrite <- fold_left_app.
+        pose proof (abort_is_noop U (useg U) c0 (es ++ ev)) as Ha. destruct (cs_begin c0) as [c1 mk]. exact Ha. }
+      unfold ebind, eget, set_changes, eret. rewrite Htr. split; [split|].
+      - (* J *)
+        split; [rewrite L2, L; exists (firstn 0 t0 ++ match bsplit t0 p0 with Some (l, _) => l | None => [] end),
+                                      (match bsplit t0 p0 with Some (_, r) => r | None => [] end);
+                destruct Hbd0 as [l [r [-> ->]]]; rewrite bsplit_app; cbn; split; reflexivity|].
+        split; [unfold I; cbn; rewrite L2, L; exact Hv0|].
+        split; [cbn; rewrite K2, K; exact Hk|].
+        split; [unfold saved_ok; cbn; rewrite S2, S; exact Hs|cbn; rewrite L2, L; exact Hg].
+      - unfold Nv. cbn. rewrite N2, N1. exact HN.
+      - cbn. rewrite Hh2, Hh1. exact Hh.
+    Qed.
+
+    Lemma hit_bd h term idx d i p entry : h_search h term idx d = Some (i, p, entry) -> bd entry p.
+    Proof.
+      unfold h_search. intros Hx. apply search_match_some in Hx. destruct Hx as [_ [_ [_ [Ht _]]]].
+      destruct (find_sub_some _ _ _ Ht) as [l [r [-> [<- _]]]]. apply bd_mid.
+    Qed.
+
+    Section Branch.
+      Variable rec : str -> nat -> sdir -> bool -> E (option cmd).
+      Hypothesis rec_sp : forall t i d su, sp (rec t i d su).
+
+      Lemma do_search_sp (h : hist) term' idx' d' :
+        sp (match h_search h term' idx' d' with
+            | Some (i, p, entry) => lb_changes U (update entry p) ;;; rec term' i d' true
+            | None => rec term' idx' d' false
+            end).
+      Proof.
+        destruct (h_search h term' idx' d') as [[[i p] entry]|] eqn:E; [|apply rec_sp].
+        intros s HS. destruct (show_hit entry p s HS (hit_bd _ _ _ _ _ _ _ E)) as [s1 [H1 HS1]].
+        unfold ebind. rewrite H1. apply rec_sp. exact HS1.
+      Qed.
+
+      Lemma exit_rp (c : cmd) : rp H (edo _ <- changes_end; eret (Some c)).
+      Proof.
+        apply rp_bind; [apply rp_of_kq; [apply kq_changes_end|]|intros _; apply rp_ret].
+        unfold changes_end. kh_auto.
+      Qed.
+
+      Lemma branch_ok backup_ok term idx d success c s :
+        P H s ->
+        match c with CReplace _ _ => True | _ => exists es, e_changes s = cs_notify_all U (useg U) (fst (cs_begin c0)) es end ->
+        backup_ok = (t0, p0) ->
+        match isearch_branch U cfg rec backup_ok (snd (cs_begin c0)) term idx d success c s with
+        | EPanic => False | EOk _ s' => P H s' | _ => True end.
+      Proof.
+        intros HP Hc ->. unfold isearch_branch. unfold ebind at 1. cbn [eget]. cbv zeta.
+        assert (Hexit : forall c', match (edo _ <- changes_end; eret (Some c')) s with EPanic => False | EOk _ s' => P H s' | _ => True end)
+          by (intros c'; apply exit_rp; exact HP).
+        assert (Hmove : forall m, match (refresh_line U cfg ;;; (edo _ <- changes_end; eret (Some (CMove m)))) s with
+                                  | EPanic => False | EOk _ s' => P H s' | _ => True end).
+        { intros m. assert (Hr : rp H (refresh_line U cfg ;;; (edo _ <- changes_end; eret (Some (CMove m))))).
+          { apply rp_bind; [apply rp_of_kq; [apply kq_of_q5, q5_refresh_line|apply kh_refresh_line]|]. intros _. apply exit_rp. }
+          apply Hr. exact HP. }
+        destruct c; try apply Hexit; try apply Hmove;
+          try match goal with
+              | m : movement |- _ => destruct m; try apply Hexit; apply rec_sp; split; assumption
+              end;
+          try match goal with
+              | |- match (if ?cnd then _ else _) s with _ => _ end =>
+                destruct cnd; [apply do_search_sp; split; assumption|apply rec_sp; split; assumption]
+              | |- match (match h_search _ _ _ _ with _ => _ end) s with _ => _ end =>
+                apply do_search_sp; split; assumption
+              | |- _ => cbn [fst snd]; apply abort_ok; split; assumption
+              end.
+      Qed.
+    End Branch.
+
+    Theorem isearch_loop_sp fuel : forall term idx d success,
+      sp (isearch_loop U cfg fuel (t0, p0) (snd (cs_begin c0)) term idx d success).
+    Proof.
+      induction fuel as [|f IH]; intros term idx d success; cbn [isearch_loop]; [intros s _; exact Logic.I|].
+      intros s [HP [es Hes]].
+      (* the search prompt *)
+      unfold ebind at 1. pose proof (q5_refresh_prompt_and_line U cfg (search_prompt success term) s) as Hq.
+      destruct (refresh_prompt_and_line U cfg (search_prompt success term) s) as [u s1| | |] eqn:E1; auto.
+      destruct Hq as [[L1 [C1 [K1 S1]]] N1].
+      assert (HP1 : P H s1).
+      { pose proof (rp_of_kq H _ (kq_of_q5 cfg _ (q5_refresh_prompt_and_line U cfg (search_prompt success term)))
+                             (kh_refresh_prompt_and_line U cfg _) s HP) as Hx. rewrite E1 in Hx. exact Hx. }
+      (* the next command *)
+      unfold ebind at 1.
+      pose proof (rp_of_kq H _ (kq_next_cmd U cfg f true) (kh_next_cmd U cfg f true) s1 HP1) as Hn.
+      destruct (next_cmd U cfg f true s1) as [c s2| | |] eqn:E2; auto.
+      pose proof (nc_changes f true s1 c s2 E2) as Hc.
+      apply (branch_ok (fun t i d' su => isearch_loop U cfg f (t0, p0) (snd (cs_begin c0)) t i d' su) IH (t0, p0));
+        [exact Hn| |reflexivity].
+      destruct c; try exact Logic.I; exists es; rewrite Hc, C1; exact Hes.
+    Qed.
+    End SearchLoop.
+
+    Theorem search_rp_emacs f : rp H (incremental_search U cfg f).
+    Proof.
+      intros s HP. unfold incremental_search. unfold ebind at 1. cbn [eget].
+      destruct (Nat.eqb (hlen_e s) 0); [exact HP|].
+      destruct HP as [[HJ HN] Hh]. pose proof HJ as [Hw [Hi [Hk [Hs Hg]]]].
+      unfold ebind at 1. unfold changes_begin. unfold ebind at 1. cbn [eget].
+      destruct (cs_begin (e_changes s)) as [c1 mk] eqn:Eb. cbn [ebind set_changes eret].
+      replace mk with (snd (cs_begin (e_changes s))) by (rewrite Eb; reflexivity).
+      apply (isearch_loop_sp (e_changes s) (buf (e_line s)) (pos (e_line s)) Hi Hw f).
+      split.
+      - split; [split|exact Hh]; [|exact HN].
+        split; [exact Hw|]. split; [|split; [exact Hk|split; [exact Hs|exact Hg]]].
+        unfold I. cbn [e_changes e_line]. replace c1 with (fst (cs_begin (e_changes s))) by (rewrite Eb; reflexivity).
+        apply valid_begin. exact Hi.
+      - exists []. unfold cs_notify_all. cbn [fold_left e_changes]. rewrite Eb. reflexivity.
+    Qed.
+
+    (* A WHOLE READ IN EMACS MODE, any history *)
+    Theorem read_never_panics_emacs prompt initial kr inp :
+      kr_inv kr -> fst (read_line U cfg prompt initial H kr inp) <> OPanic.
+    Proof. apply read_rp. exact search_rp_emacs. Qed.
+  End EmacsSearch.
 End MainLoop.
